@@ -13,7 +13,7 @@ from harness import stages, sub, build
 from harness.tlc import MachineryError
 
 POINTS = ('before', 'mid', 'after')
-MODES = ('kill', 'exit3', 'raise')
+MODES = ('kill', 'exit3', 'raise', 'term')
 
 STAGES = {
     # stage: (gate prefix, id keys)
